@@ -453,7 +453,7 @@ static void sc_events(const Case &c) {
         r->refused = true;
         regs.push_back(std::move(r));
         // the same registration can be made again (the allocator recovers in single mode)
-        if (!aw::S().persistent && VV->ok) {
+        if (aw::recovered() && VV->ok) {
           std::unique_ptr<Reg> r2(new Reg(*regs.back()));
           r2->refused = false;
           if (!do_reg(r2.get()))
@@ -605,7 +605,7 @@ static void sc_io(const Case &c) {
           if (kind == 2) acc_busy = true;
         }
         reqs.push_back(std::move(r));
-        if (!refused || aw::S().persistent) break;  // otherwise: the same request can be made again
+        if (!refused || !aw::recovered()) break;  // otherwise: the same request can be made again
         if (attempt == 1) VV->fail("retry-refused", "an identical request right after a refused one was refused again although the allocator had recovered");
       }
     } else if (op.k == "run") {
@@ -807,13 +807,25 @@ static void sc_netbuf(const Case &c) {
           VV->fail("reader-changed-by-failed-wait", "netbuf_read_wait failed (allocation refused) and the reader's buffered data changed: " + std::to_string(before.size()) + " bytes before, " +
                                                         std::to_string(l1) + " bytes after" + (l1 == before.size() ? " (different contents)" : ""));
         // ... and once the allocator has recovered the same wait can be made
-        if (VV->ok && !aw::S().persistent) {
+        // (when two allocations in a row are refused the first retry may be refused as well: the reader must again be unchanged, and the
+        // retry after that must work)
+        bool made = false;
+        for (int tries = 0; tries < 3 && VV->ok && !aw::S().persistent && !made; tries++) {
+          bool rec = aw::recovered();
           int rc2 = s_nr_wait(R, k, nb_cb, nullptr);
-          if (rc2 != 0)
+          if (rc2 == 0)
+            made = true;
+          else if (rec)
             VV->fail("retry-refused", "the same netbuf_read_wait right after a refused one failed again although the allocator had recovered");
-          else
-            waiting = true;
-        } else
+          else {
+            s_nr_peek(R, &p1, &l1);
+            if (l1 != before.size() || memcmp(p1, before.data(), l1) != 0)
+              VV->fail("reader-changed-by-failed-wait", "a second refused netbuf_read_wait changed the reader's buffered data");
+          }
+        }
+        if (made)
+          waiting = true;
+        else
           r_dead = true;
       } else
         waiting = true;
@@ -989,7 +1001,7 @@ static void sc_http(const Case &c) {
     if (!H) MUST_BE_INJECTED(sc, "http_request");
   }
   if (!H) {
-    if (!aw::S().persistent) {  // the same request can be made again
+    if (aw::recovered()) {  // the same request can be made again
       OpScope sc;
       H = s_http_request(s_mkaddrs_static(4000), "POST", "/path/to/resource", 4, reqbody, sizeof reqbody, limit, h_cb, nullptr);
       if (!H) VV->fail("retry-refused", "http_request failed again although the allocator had recovered");
@@ -1109,7 +1121,7 @@ static void sc_aes(const Case &c) {
         ko.k = s_aes_expand((const uint8_t *)ko.raw.data(), ko.raw.size());
         if (!ko.k) MUST_BE_INJECTED(sc, "crypto_aes_key_expand");
       }
-      if (!ko.k && !aw::S().persistent && VV->ok) {  // the same expansion can be made again
+      if (!ko.k && aw::recovered() && VV->ok) {  // the same expansion can be made again
         OpScope sc;
         ko.k = s_aes_expand((const uint8_t *)ko.raw.data(), ko.raw.size());
         if (!ko.k) VV->fail("retry-refused", "crypto_aes_key_expand failed again although the allocator had recovered");
@@ -1192,7 +1204,7 @@ static void child_exit_handler() {
   }
   _exit(0);
 }
-static ChildRes run_child(Scenario sc, const Case &c, long k, bool persistent) {
+static ChildRes run_child(Scenario sc, const Case &c, long k, int mode) {  // mode 0: the k-th allocation fails; 1: it and every later one; 2: it and the next one
   int p[2];
   if (pipe(p) != 0) abort();
   fflush(stdout);
@@ -1213,7 +1225,8 @@ static ChildRes run_child(Scenario sc, const Case &c, long k, bool persistent) {
     atexit(child_exit_handler);
     aw::reset();
     aw::S().fail_at = k;
-    aw::S().persistent = persistent;
+    aw::S().persistent = mode == 1;
+    aw::S().fail_count = mode == 2 ? 2 : 1;
     VV = &g_v;
     sc(c);
     exit(0);
@@ -1258,9 +1271,9 @@ static Outcome run_enum(const Case &c, Scenario sc, const char *name) {
   for (auto &op : c)
     if (op.k == "fault" && op.a.size() >= 2) {
       only_k = (long)op.a[0];
-      only_mode = (int)(op.a[1] & 1);
+      only_mode = (int)(((op.a[1] % 3) + 3) % 3);
     }
-  ChildRes base = run_child(sc, c, -1, false);
+  ChildRes base = run_child(sc, c, -1, 0);
   o.weight = 1;
   if (!base.ok) {
     o.fail(std::string(name) + ":" + (base.crashed ? "crash" : base.sig) + ":unfaulted", "un-faulted run: " + base.msg);
@@ -1279,20 +1292,20 @@ static Outcome run_enum(const Case &c, Scenario sc, const char *name) {
     o.cls("k-subsampled");
   }
   for (long k : ks)
-    for (int mode = 0; mode < 2; mode++) {
+    for (int mode = 0; mode < 3; mode++) {
       if (only_k >= 0 && (k != only_k || mode != only_mode)) continue;
-      ChildRes r = run_child(sc, c, k, mode == 1);
+      ChildRes r = run_child(sc, c, k, mode);
       o.weight++;
-      o.counters[mode ? "faulted_runs_persistent" : "faulted_runs_single"]++;
+      o.counters[mode == 1 ? "faulted_runs_persistent" : mode == 2 ? "faulted_runs_two_in_a_row" : "faulted_runs_single"]++;
       if (r.failures == 0) o.counters["fault_not_reached"]++;
       if (r.reused) o.counters["runs_using_an_object_again_after_a_refused_operation"]++;
       if (r.unwind) {
-        o.digests.push_back(h0 * 1000003ULL + (uint64_t)k * 2 + (uint64_t)mode);
+        o.digests.push_back(h0 * 1000003ULL + (uint64_t)k * 3 + (uint64_t)mode);
         o.nontrivial = true;
       }
       if (!r.ok) {
         char m[600];
-        snprintf(m, sizeof m, "%s: failing allocation #%ld (%s) of %ld: %s", name, k, mode ? "and every later one" : "only", N, r.msg.c_str());
+        snprintf(m, sizeof m, "%s: failing allocation #%ld (%s) of %ld: %s", name, k, mode == 1 ? "and every later one" : mode == 2 ? "and the next one" : "only", N, r.msg.c_str());
         o.fail(std::string(name) + ":" + (r.crashed ? "crash" : r.sig), m);
         return o;
       }
